@@ -13,7 +13,7 @@ ResEq(a, b) == IF a.t # b.t THEN FALSE
                ELSE StructEq(a, b)
 
 \* ---- dispatch table: how each entry point combines the results of a collection's members -------------
-Law(fn) == CASE fn \in {"Clone", "Round", "project.Geometry"} -> "map"
+Law(fn) == CASE fn \in {"Clone", "Round", "Round.default", "project.Geometry"} -> "map"
              [] fn \in {"simplify.DouglasPeucker", "simplify.Visvalingam", "simplify.Radial"} -> "mapnil"
              [] fn \in {"planar.Area", "planar.Length", "planar.CentroidArea.area"} -> "sum"
              [] fn \in {"planar.DistanceFrom", "planar.DistanceFromWithIndex"} -> "min"
